@@ -294,7 +294,8 @@ class TM(DateTimeDataType):
             raise InvalidDateOffset(offset)
         try:
             d = datetime.strptime(offset[1:], '%H%M')
-            if offset[0] == '+' and d.hour > 14 or offset[0] == '-' and d.hour > 12:
+            # the UTC offset ranges from -1200 to +1400
+            if offset[0] == '+' and (d.hour, d.minute) > (14, 0) or offset[0] == '-' and (d.hour, d.minute) > (12, 0):
                 raise ValueError
         except ValueError:
             if offset:
